@@ -1,5 +1,6 @@
 import BPT.Rust.Iter2
 import BPT.Props.C01
+import BPT.Rust.FastIter
 /-
   C02 — Rust iteration yields every entry exactly once in ascending key order.
 
@@ -164,5 +165,10 @@ theorem iterators_independent (cfg : Cfg) (m : RawMap K V) (cap : Nat) (f : Nat)
       have := ih a b' Ra Rb' na nb' hpa hpb'' hfa (by omega) ha1 ha2 (hse.1 ▸ hb1) (hse.2.1 ▸ hb2)
       simp only [show (false == true) = false from rfl, Bool.false_eq_true, if_false, Nat.add_zero]
       exact ⟨this.1, by rw [this.2]⟩
+
+/-- `items_fast()` (FastItemIterator) yields exactly the same sequence as `items()`: the current entries,
+    once each, in strictly ascending key order -/
+theorem items_fast_eq_abs (s : RState K V) (hs : SInv s) (hsm : Small s) :
+    (view s).itemsFast Cfg.repaired = .ok (abs s) := view_itemsFast s hs hsm
 
 end BPT.Props.C02
